@@ -117,4 +117,31 @@ Definition dusch_J (swp isw : list K) (Ud : list (list K)) : list (list K) :=
   map2 (fun a row => map2 (fun u b => (a * u) * b) row isw) swp Ud.
 (* alpha = delta / np.sqrt(2) *)
 Definition vib_alpha (sqrt2 : K) (delta : list K) : list K := map (fun x => x / sqrt2) delta.
+(* ---- photon-number bookkeeping of a state under phase rotations (for TimeEvolution) ---------- *)
+(* what photon numbers need of a state: first moments alpha_i = <a_i> and N_ij = <a_i^dag a_j>, as (re, im) pairs *)
+Record gstate := mkG { amp : nat -> K * K; nmat : nat -> nat -> K * K }.
+Definition cmul (a b : K * K) : K * K := ((fst a * fst b) - (snd a * snd b), (fst a * snd b) + (snd a * fst b)).
+Definition cconj (a : K * K) : K * K := (fst a, - snd a).
+(* Rgate(theta) | q[k] with e = (cos theta, sin theta):  a_k -> e a_k *)
+Definition rgate (k : nat) (e : K * K) (s : gstate) : gstate :=
+  mkG (fun i => if Nat.eqb i k then cmul e (amp s i) else amp s i)
+      (fun i j => let x := nmat s i j in
+                  let x := if Nat.eqb i k then cmul (cconj e) x else x in
+                  if Nat.eqb j k then cmul e x else x).
+Definition run_rgates (cs sn : K -> K) (cmds : list (nat * K)) (s : gstate) : gstate :=
+  fold_left (fun st c => rgate (fst c) (cs (snd c), sn (snd c)) st) cmds s.
+Definition photons (s : gstate) (i : nat) : K := fst (nmat s i i).
+Definition amp2 (s : gstate) (i : nat) : K := (fst (amp s i) * fst (amp s i)) + (snd (amp s i) * snd (amp s i)).
 End Model.
+
+(* ---- discrete bookkeeping ------------------------------------------------------------------ *)
+(* similarity.py prob_orbit_exact: click = orbit + [0] * (modes - len(orbit)); state.fock_prob raises ValueError
+   unless len(click) = modes.  Python's [0] * negative = [] is the truncated subtraction of nat. *)
+Definition orbit_click (orbit : list nat) (modes : nat) : list nat := orbit ++ repeat O (modes - length orbit).
+Definition orbit_ok (orbit : list nat) (modes : nat) : bool := Nat.eqb (length (orbit_click orbit modes)) modes.
+(* qchem/vibronic.py sample: entries per returned sample; z_i = (t_i == 0).
+   program has 2N modes if np.any(t != 0) else N; N zero columns are appended if np.any(t == 0) *)
+Definition sample_len (z : list bool) : nat :=
+  let n := length z in
+  let prog := if existsb negb z then 2 * n else n in
+  if existsb (fun b => b) z then prog + n else prog.
